@@ -223,6 +223,16 @@ def five_students(**over):
     return fam(**d)
 
 
+def unordered_numbers(**over):
+    """C10 only (loaded, never solved): files whose numbers are not ordered - target above the upper quota or below
+    the lower one, lower quota above the upper one - are read as written"""
+    d = dict(NA=3, NS=2, NP=2, NL=2, MaxLen=2, TieMode='none', AllowEmpty=True, PQ={(0, 1), (2, 1), (3, 0)},
+             LQ={(0, 4, 2), (2, 1, 3), (3, 0, 1), (0, 2, 2), (5, 5, 0)}, LecMapMode='all', Sided={'one', 'two'}, OrderMode='asc',
+             Stabs={False}, PCs={False})
+    d.update(over)
+    return fam(**d)
+
+
 def both_twodigit(**over):
     """twelve students AND eleven lecturers (two-digit numbers on both sides), two-sided, strict second-side order"""
     d = dict(NA=3, NS=12, NP=11, NL=11, MaxLen=2, TieMode='none', AllowEmpty=True, PQ={(0, 2)}, LQ={(0, 2, 4)},
